@@ -122,3 +122,98 @@ def run(ctx):
     ret = [n for n in walk_no_nested(sub.node) if isinstance(n, ast.Return)]
     ctx.check('R18.3', len(ret) == 1 and isinstance(ret[0].value, ast.Tuple) and len(ret[0].value.elts) == 3 and norm(ret[0].value.elts[0]) == 'self' and norm(ret[0].value.elts[2]) == 'total_count',
               'match', 'subn', norm(ret[0].value) if ret else '<no return>', 'subn must return (self, unique count, total_count)', sub.lineno)
+
+
+# ---- R18.4 -----------------------------------------------------------------------------------------------------------
+    check_budget(ctx)
+
+
+def check_budget(ctx):
+    """A per-location counter (`loop`) that is consumed while one location is being rewritten must be restored from its saved start
+    value on every path that leaves that location (the `break` out of the per-location loop).  Which saved counters are per-location is
+    read off the code: the ones it restores somewhere (`loop = loop_start`); `count` is saved for reporting only and never restored."""
+    from ..cfg import CFG, subnodes
+    from ..struct import parent_map
+    ctx.rule('R18.4', 'a per-location budget consumed inside the per-location loop is restored on every path that leaves the location', 1)
+    for fi in ctx.repo.funcs('match', 'subn'):
+        fn = fi.node
+        # saved budgets: `<v>_start = <v>`
+        saved = {}
+        for n in ast.walk(fn):
+            if isinstance(n, ast.Assign) and len(n.targets) == 1 and isinstance(n.targets[0], ast.Name) and isinstance(n.value, ast.Name) and \
+                    n.targets[0].id == n.value.id + '_start':
+                saved[n.value.id] = n.targets[0].id
+        if not saved:
+            raise AnalysisError('subn: no saved budget (`<v>_start = <v>`) found')
+        for v, vs in list(saved.items()):
+            n_asg = sum(1 for n in ast.walk(fn) if isinstance(n, ast.Name) and isinstance(n.ctx, ast.Store) and n.id == vs)
+            if n_asg != 1:
+                del saved[v]      # the saved value itself changes: not a start value
+        cfg = CFG(fn)
+        par = parent_map(fn)
+        n_inst = 0
+        for v, vs in saved.items():
+            decs, resets = [], set()
+            for nd in cfg.nodes:
+                for x in subnodes(cfg, nd):
+                    tgt = val = None
+                    if isinstance(x, ast.NamedExpr):
+                        tgt, val = x.target, x.value
+                    elif isinstance(x, ast.Assign) and len(x.targets) == 1:
+                        tgt, val = x.targets[0], x.value
+                    elif isinstance(x, ast.AugAssign) and isinstance(x.op, ast.Sub):
+                        tgt, val = x.target, ast.BinOp(left=x.target, op=ast.Sub(), right=x.value)
+                    if isinstance(tgt, ast.Name) and tgt.id == v:
+                        if isinstance(val, ast.BinOp) and isinstance(val.op, ast.Sub) and isinstance(val.left, ast.Name) and val.left.id == v:
+                            decs.append((nd, x))
+                        elif isinstance(val, ast.Name) and val.id == vs:
+                            resets.add(nd.id)
+            if not resets:
+                continue        # never restored anywhere: a budget for the whole call (`count`), not per location
+            for nd, x in decs:
+                # innermost loop around the decrement = the per-location loop
+                cur = x if x in par else nd.ast
+                loop_node = None
+                while cur in par:
+                    cur = par[cur]
+                    if isinstance(cur, (ast.While, ast.For)):
+                        loop_node = cur
+                        break
+                if loop_node is None:
+                    continue
+                n_inst += 1
+                def feasible(n_, lab, s_, v=v, vs=vs):
+                    # after `v := v - 1` v is an int: `v is not False` cannot be false (the "budget disabled" arm is dead on these paths)
+                    if lab == 'exc':
+                        return False
+                    if n_.kind == 'test' and isinstance(n_.ast, ast.Compare) and len(n_.ast.ops) == 1 and norm(n_.ast.left) == v and \
+                            isinstance(n_.ast.comparators[0], ast.Constant) and n_.ast.comparators[0].value is False:
+                        if isinstance(n_.ast.ops[0], ast.IsNot) and lab == 'false':
+                            return False
+                        if isinstance(n_.ast.ops[0], ast.Is) and lab == 'true':
+                            return False
+                    # consumed and not yet restored: v < vs (vs is assigned once), so `v != vs` holds
+                    if n_.kind == 'test' and isinstance(n_.ast, ast.Compare) and len(n_.ast.ops) == 1 and \
+                            {norm(n_.ast.left), norm(n_.ast.comparators[0])} == {v, vs}:
+                        if isinstance(n_.ast.ops[0], ast.NotEq) and lab == 'false':
+                            return False
+                        if isinstance(n_.ast.ops[0], ast.Eq) and lab == 'true':
+                            return False
+                    return True
+                reach = cfg.reachable(nd.id, feasible, stop=resets)
+                leaks = []
+                for b in cfg.nodes:
+                    if b.id in reach and isinstance(b.ast, ast.Break):
+                        c2 = b.ast
+                        while c2 in par:
+                            c2 = par[c2]
+                            if isinstance(c2, (ast.While, ast.For)):
+                                break
+                        if c2 is loop_node:
+                            leaks.append(b)
+                ctx.check('R18.4', not leaks, fi.module, fi.qualname, f'{v}: consumed at {norm(x, 40)}',
+                          f'`{v}` is decremented while one location is rewritten and the location can be left (break at line '
+                          f'{leaks[0].lineno if leaks else 0}) without `{v} = {vs}`: the next location starts with what is left of the budget', x.lineno,
+                          sample={'function': fi.key, 'budget': v, 'saved': vs, 'resets': len(resets)})
+        if n_inst < 1:
+            raise AnalysisError('subn: no consumption of a saved budget found')
